@@ -161,6 +161,41 @@ func genC05(r *fw.Rng, tier string, emit func(fw.Case)) {
 			emitSess(emit, cutRandom(r, stream, 40))
 		}
 	}
+	// restarted transfers: message ID X is abandoned after some of its packets (or a duplicate arrives after it
+	// completed) and X starts again with the same total, new serials and new content; the packets of the second transfer
+	// arrive in any order. Packet 1 begins a new transfer: nothing received before it may count for, or appear in, the
+	// message delivered for the second transfer.
+	for i := 0; i < n/8; i++ {
+		N := 2 + r.Intn(6)
+		old := randTransfer(r, uint16(r.Pick(transferIDs)), 1)
+		old.bodies = nil
+		for k := 0; k < N; k++ {
+			old.bodies = append(old.bodies, r.Bytes(1+r.Intn(6)))
+		}
+		nw := old
+		nw.serial = old.serial + 100 + uint16(r.Intn(1000))
+		nw.bodies = nil
+		for k := 0; k < N; k++ {
+			nw.bodies = append(nw.bodies, r.Bytes(1+r.Intn(6)))
+		}
+		var cs []pchunk
+		cs = append(cs, pchunk{0, old.packet(1, r).bytes})
+		complete := r.Chance(30)
+		for k := 2; k <= N; k++ {
+			if complete || r.Chance(60) {
+				cs = append(cs, pchunk{0, old.packet(k, r).bytes})
+			}
+		}
+		if complete { // a late duplicate of the finished transfer
+			cs = append(cs, pchunk{0, old.packet(2+r.Intn(N-1), r).bytes})
+		}
+		cs = append(cs, pchunk{0, nw.packet(1, r).bytes})
+		for _, no := range arrival(r, N, 15)[1:] {
+			cs = append(cs, pchunk{0, nw.packet(no, r).bytes})
+		}
+		cs = append(cs, pchunk{0, mkFrame(unfragH(r), nil).bytes})
+		emitSess(emit, cs)
+	}
 	// all arrival orders for small N (exhaustive for N <= 4 in quick, <= 5 in thorough)
 	maxP := 4
 	if tier == "thorough" {
